@@ -281,6 +281,46 @@ func (o *ordEval) cond(e ast.Expr) bool {
 	return false
 }
 
+// intExpr evaluates cmp.Compare(x.F, y.F) (three-way comparison of one word) and its negation.
+func (o *ordEval) intExpr(e ast.Expr) (int64, bool) {
+	e = stripParens(e)
+	if u, ok := e.(*ast.UnaryExpr); ok && u.Op == token.SUB {
+		n, ok := o.intExpr(u.X)
+		return -n, ok
+	}
+	call, ok := e.(*ast.CallExpr)
+	if !ok || len(call.Args) != 2 {
+		return 0, false
+	}
+	fun := stripParens(call.Fun)
+	if ix, ok := fun.(*ast.IndexExpr); ok {
+		fun = ix.X
+	}
+	sel, ok := fun.(*ast.SelectorExpr)
+	if !ok {
+		return 0, false
+	}
+	fn, _ := o.info.Uses[sel.Sel].(*types.Func)
+	if fn == nil || fn.Pkg() == nil || fn.Pkg().Path() != "cmp" || fn.Name() != "Compare" {
+		return 0, false
+	}
+	ox, fx := o.fieldOf(call.Args[0])
+	oy, fy := o.fieldOf(call.Args[1])
+	if ox == nil || oy == nil || fx != fy {
+		return 0, false
+	}
+	s, known := o.sign[fx]
+	if !known {
+		return 0, false
+	}
+	if ox == o.b && oy == o.a {
+		s = -s
+	} else if !(ox == o.a && oy == o.b) {
+		return 0, false
+	}
+	return int64(s), true
+}
+
 // run evaluates a body of if/else/return statements; ok=false if control falls through.
 func (o *ordEval) run(list []ast.Stmt) (int64, bool) {
 	for _, st := range list {
@@ -289,6 +329,11 @@ func (o *ordEval) run(list []ast.Stmt) (int64, bool) {
 			if len(st.Results) == 1 {
 				if tv, ok := o.info.Types[st.Results[0]]; ok && tv.Value != nil && tv.Value.Kind() == constant.Int {
 					n, _ := constant.Int64Val(tv.Value)
+					return n, true
+				}
+			}
+			if len(st.Results) == 1 {
+				if n, ok := o.intExpr(st.Results[0]); ok {
 					return n, true
 				}
 			}
